@@ -269,8 +269,9 @@ fn scenario(case: Case) -> impl Fn(&mut Chooser) -> Result<u64, Violation> + Syn
 // (b) wind-down on the wire
 // ------------------------------------------------------------------------------------------------
 
-async fn wire_case(h2: bool, with_tunnel: bool) -> Result<&'static str, Violation> {
-    let case = json!({"kind":"wire","h2":h2,"with_tunnel":with_tunnel});
+/// `racing_request`: scheduler turns between the submission and a new HTTP/2 request
+async fn wire_case(h2: bool, with_tunnel: bool, racing_request: Option<u32>) -> Result<&'static str, Violation> {
+    let case = json!({"kind":"wire","h2":h2,"with_tunnel":with_tunnel,"racing_request":racing_request});
     let mk = |sig: String, what: String| Violation::new(sig, what, case.clone());
     let world = make_world(&Cfg::default()).map_err(|e| Violation::new("C19:machinery", e, json!({})))?;
     let canary = door::start_canary().await;
@@ -308,10 +309,33 @@ async fn wire_case(h2: bool, with_tunnel: bool) -> Result<&'static str, Violatio
     }
     // the session must have registered before the submission (a later one is not concerned)
     door::spin(100).await;
-    // submit
+    // HTTP/2: a new request may be on its way when the shutdown is submitted (received by the
+    // endpoint, not yet taken up by the session)
+    if racing_request.is_some() {
+        if let Some(cl) = h2c.as_mut() {
+            let mut ready = Box::pin(std::future::poll_fn(|cx| cl.send.poll_ready(cx)));
+            let _ = door::until(&mut ready, Duration::from_secs(2)).await;
+        }
+    }
+    // submit; the racing request goes out `turns` scheduler turns before (turns < RACING_TURNS / 2)
+    // or after the submission
+    let mut _racing = None;
+    let half = RACING_TURNS / 2;
+    if let (Some(turns), Some(cl)) = (racing_request, h2c.as_mut()) {
+        if turns < half {
+            _racing = cl.send.send_request(ReqSpec::connect("_check").h2_request().unwrap(), true).ok();
+            door::spin(turns).await;
+        }
+    }
     world.shutdown.lock().unwrap().submit();
+    if let (Some(turns), Some(cl)) = (racing_request, h2c.as_mut()) {
+        if turns >= half {
+            door::spin(turns - half).await;
+            _racing = cl.send.send_request(ReqSpec::connect("_check").h2_request().unwrap(), true).ok();
+        }
+    }
     door::spin(200).await;
-    let kind = if h2 { "h2" } else { "h1" };
+    let kind = if h2 && racing_request.is_some() { "h2-racing-request" } else if h2 { "h2" } else { "h1" };
     if let Some(mut cl) = h1 {
         cl.pump(200).await;
         if std::env::var_os("VERIF_DEBUG").is_some() {
@@ -358,6 +382,8 @@ async fn wire_case(h2: bool, with_tunnel: bool) -> Result<&'static str, Violatio
 
 /// Every channel's session registers a completion guard; `completion()` may return only after the
 /// session's graceful close is over. The transport's shutdown is held back to make the close slow.
+const RACING_TURNS: u32 = 24;
+
 async fn slow_close_case(channel: &str) -> Result<&'static str, Violation> {
     use crate::engine::sstream;
     let case = json!({"kind":"slow-close","channel":channel});
@@ -443,9 +469,17 @@ pub fn run(tier: Tier) -> i32 {
     for h2 in [false, true] {
         for with_tunnel in [false, true] {
             wire += 1;
-            match rt::run_paused(wire_case(h2, with_tunnel)) {
+            match rt::run_paused(wire_case(h2, with_tunnel, None)) {
                 Ok(_) => {}
                 Err(v) => rep.violation(v),
+            }
+            if h2 {
+                for turns in 0..RACING_TURNS {
+                    wire += 1;
+                    if let Err(v) = rt::run_paused(wire_case(h2, with_tunnel, Some(turns))) {
+                        rep.violation(v);
+                    }
+                }
             }
         }
     }
@@ -455,7 +489,7 @@ pub fn run(tier: Tier) -> i32 {
             rep.violation(v);
         }
     }
-    rep.sub.push(json!({"sub":"wind-down-on-the-wire","scenarios":wire,"what":"h1/h2 x with/without an open tunnel: session closes after submit and completion() returns; 4 channels with a held-back transport shutdown: completion() not before the session's close is over, and right after it"}));
+    rep.sub.push(json!({"sub":"wind-down-on-the-wire","scenarios":wire,"what":"h1/h2 x with/without an open tunnel (h2 also with a new request sent 0..12 scheduler turns before or after the submission): session closes after submit and completion() returns; 4 channels with a held-back transport shutdown: completion() not before the session's close is over, and right after it"}));
     rep.cov("states", cps);
     rep.cov("transitions", cps);
     rep.cov("traces_validated_against_impl", total);
@@ -478,7 +512,7 @@ pub fn replay(case: &serde_json::Value) -> Result<(), Violation> {
         return rt::run_paused(slow_close_case(case["channel"].as_str().unwrap_or("tunnel"))).map(|_| ());
     }
     if case.get("kind").and_then(|k| k.as_str()) == Some("wire") {
-        return rt::run_paused(wire_case(case["h2"].as_bool().unwrap_or(false), case["with_tunnel"].as_bool().unwrap_or(false))).map(|_| ());
+        return rt::run_paused(wire_case(case["h2"].as_bool().unwrap_or(false), case["with_tunnel"].as_bool().unwrap_or(false), case["racing_request"].as_u64().map(|t| t as u32))).map(|_| ());
     }
     let c: Case = serde_json::from_value(case["case"].clone()).map_err(|_| Violation::new("C19:machinery", "bad replay file", json!({})))?;
     let picks: Vec<u16> = case["picks"].as_array().map(|a| a.iter().map(|x| x.as_u64().unwrap_or(0) as u16).collect()).unwrap_or_default();
